@@ -23,7 +23,7 @@ func init() {
 	register("C06", "other", []string{
 		"decides: who may write Called/UsedAlias and the user variables; only the matched record is touched; aliases register the same record; New/Value/Save agree on the receiver field of every kind; the 12 definers have the same shape (default stored, kind ↔ pointer type, registration, modifiers) and their wrappers return the pointer they registered",
 		"behaviour of user-supplied modifier functions is not decided",
-	}, rC06Writers, rC06OnlyMatched, rC06Alias, rC06ReceiverOwnership, rC06Definers, rC06KindTable, rC06Readers, func(w *World, r *Report) { calledOnMatch(w, r, "R06.8") })
+	}, rC06Writers, rC06OnlyMatched, rC06Alias, rC06ReceiverOwnership, rC06Definers, rC06KindTable, rC06Readers, func(w *World, r *Report) { calledOnMatch(w, r, "R06.8") }, func(w *World, r *Report) { subRule(w, r, rC05Matcher, "R06.10", "names and aliases are interchangeable for abbreviations: the matcher treats every key of the table alike (same obligations as C05 R05.1)", 3) }, func(w *World, r *Report) { subRule(w, r, rC12GetEnvBody, "R06.9", "Called through the environment: the GetEnv modifier marks an option called only when it saved a valid non-empty value (same obligations as C12 R12.4)", 9) })
 	register("C07", "other", []string{
 		"decides: long options never consult the mode (information flow), Normal-mode single-dash branch ≡ long-option branch (structural equality), rune/byte unit consistency, bundling: one pair per character and only the last receives the attached value, single-dash: first rune is the option and the rest plus the attached text is the value; the parser hands the mode to the splitter only; Parse passes the root's mode",
 		"the string equivalences themselves (-xyz=v ≡ -x -y -z=v, -xREST ≡ --x=REST) are decided only through these structural conditions",
@@ -165,6 +165,42 @@ func rC05Matcher(w *World, r *Report) {
 	}
 	if apps == 0 {
 		ru.Bad("scan/predicate", w.Pos(fn.Pos()), "the scan appends no candidate")
+	}
+	// every return after the scan hands back the accumulator that receives *every* matching key
+	ig2 := buildIG(fn)
+	for _, b := range fn.Blocks {
+		for _, in := range b.Instrs {
+			ret, ok := in.(*ssa.Return)
+			if !ok || !edgeDominates(exactIf.Block(), 1, b) {
+				continue
+			}
+			acc, ok := ret.Results[0].(*ssa.Phi)
+			if !ok {
+				ru.Bad("scan/result", w.IPos(ret), "the matcher does not return the scan's accumulator: "+ret.Results[0].String())
+				continue
+			}
+			hdr := acc.Block()
+			complete := true
+			for _, lb := range fn.Blocks {
+				iff, ok := lb.Instrs[len(lb.Instrs)-1].(*ssa.If)
+				if !ok || !naturalLoop(hdr)[lb] {
+					continue
+				}
+				hc, ok := iff.Cond.(*ssa.Call)
+				if !ok || calleeName(hc) != "strings.HasPrefix" {
+					continue
+				}
+				isApp := func(i2 ssa.Instruction) bool {
+					c, ok := i2.(*ssa.Call)
+					return ok && calleeName(c) == "builtin:append" && appendChainOf(c, acc, map[ssa.Value]bool{})
+				}
+				okAll, _ := ig2.mustPass(ig2.edgeStart(lb, 0), isApp, func(i2 ssa.Instruction) bool { return i2.Block() == hdr && i2 == hdr.Instrs[0] })
+				if !okAll {
+					complete = false
+				}
+			}
+			ru.Check(complete, "scan/result", w.IPos(ret), "returns the list of all names with the typed prefix", "the list returned by the matcher can omit names that have the typed prefix: an ambiguous abbreviation would be resolved silently")
+		}
 	}
 }
 
@@ -1421,6 +1457,7 @@ func rC07SingleDash(w *World, r *Report) {
 		return false
 	}
 	okOpt, okArgs := false, false
+	nArgsStores, nGoodArgs := 0, 0
 	eachInstr(fn, func(in ssa.Instruction) {
 		st, ok := in.(*ssa.Store)
 		if !ok || !inSD(in.Block()) {
@@ -1443,6 +1480,7 @@ func rC07SingleDash(w *World, r *Report) {
 					}
 				}
 			case "Args":
+				nArgsStores++
 				els, _, _ := elementsOf(st.Val, map[ssa.Value]bool{})
 				for _, e := range els {
 					if bo, ok := e.(*ssa.BinOp); ok && bo.Op == token.ADD && isSubmatchElem(bo.Y, 3) {
@@ -1451,6 +1489,7 @@ func rC07SingleDash(w *World, r *Report) {
 								if k, ok := constInt(sl.Low); ok && k == 1 {
 									if c2, ok := sl.X.(*ssa.Convert); ok && isSubmatchElem(c2.X, 2) {
 										okArgs = true
+										nGoodArgs++
 									}
 								}
 							}
@@ -1461,7 +1500,7 @@ func rC07SingleDash(w *World, r *Report) {
 		}
 	})
 	ru.Check(okOpt, "single-dash/option", w.Pos(fn.Pos()), "Option = string([]rune(match[2])[0])", "the single-dash option is not the first character of the token")
-	ru.Check(okArgs, "single-dash/value", w.Pos(fn.Pos()), "Args = string([]rune(match[2])[1:]) + match[3]", "the single-dash value is not exactly the rest of the token")
+	ru.Check(okArgs && nArgsStores == nGoodArgs, "single-dash/value", w.Pos(fn.Pos()), "Args = string([]rune(match[2])[1:]) + match[3]", fmt.Sprintf("the single-dash value is not exactly the rest of the token on every path (%d of %d stores have the documented shape)", nGoodArgs, nArgsStores))
 }
 
 // onlyLogged: the interface value is only stored into the variadic argument list of debug Logger calls.
